@@ -9,6 +9,7 @@
 import Stab.Model.Status
 import Stab.Gen.Status
 import Stab.Lemmas.EngineGood
+import Stab.Lemmas.EngineFrozen
 
 namespace Stab.Props.C06
 open Stab Stab.Status
@@ -100,6 +101,32 @@ theorem every_write_legal_partial (c : Cfg) (hc : NoJumpCfg c) (ops : List Op) :
 theorem complete_is_final_partial (c : Cfg) (hc : NoJumpCfg c) (ops : List Op) :
     ∀ r ∈ (run c ops).audit, r.old.isComplete = true → r.old = r.new :=
   fun r hr hcomp => complete_has_no_successor r.old r.new hcomp (every_write_legal_partial c hc ops r hr)
+
+/-- **Completed is final, as a statement about states** (jump-free workflows): once a stage's durable status is a
+    completed one after a history `ops1`, it is the same after every continuation `ops2` — deliveries in any order,
+    redeliveries, kills after any number of commits, sweeps, cancels, signals, nested deliveries; any length. -/
+theorem completed_stage_stays (c : Cfg) (hc : NoJumpCfg c) (ops1 ops2 : List Op) (i : Nat)
+    (h : ((run c ops1).stage i).status.isComplete = true) :
+    ((run c (ops1 ++ ops2)).stage i).status = ((run c ops1).stage i).status := by
+  have hrun : run c (ops1 ++ ops2) = ops2.foldl (step c) (run c ops1) := by simp [run, List.foldl_append]
+  rw [hrun]
+  exact foldl_stable (stageFinal_stable i _ h) c hc ops2 _ (run_good c hc ops1) rfl
+
+/-- the same for a task's status … -/
+theorem completed_task_stays (c : Cfg) (hc : NoJumpCfg c) (ops1 ops2 : List Op) (i t : Nat)
+    (h : (taskStatus (run c ops1) i t).isComplete = true) :
+    taskStatus (run c (ops1 ++ ops2)) i t = taskStatus (run c ops1) i t := by
+  have hrun : run c (ops1 ++ ops2) = ops2.foldl (step c) (run c ops1) := by simp [run, List.foldl_append]
+  rw [hrun]
+  exact (foldl_frozen c hc ops2 (run c ops1) i t _ _ (run_good c hc ops1) h ⟨rfl, rfl⟩).status
+
+/-- … and for the workflow's own status: a final workflow status is final. -/
+theorem final_workflow_status_stays (c : Cfg) (hc : NoJumpCfg c) (ops1 ops2 : List Op)
+    (h : (run c ops1).wfStatus.isComplete = true) :
+    (run c (ops1 ++ ops2)).wfStatus = (run c ops1).wfStatus := by
+  have hrun : run c (ops1 ++ ops2) = ops2.foldl (step c) (run c ops1) := by simp [run, List.foldl_append]
+  rw [hrun]
+  exact foldl_stable (wfFinal_stable _ h) c hc ops2 _ (run_good c hc ops1) rfl
 
 /-- every CompleteTask message that is ever queued carries a status RUNNING may legally move to, and no
     JumpToStage message exists when no script jumps -/
